@@ -203,7 +203,7 @@ def check(P, rep):
         for e in state_effects(g):
             if e.kind == 'xcall' and e.method in MOVERS and e.client in ('TokenClient', 'StellarAssetClient', 'InterchainTokenClient'):
                 nm += 1
-                rep.check(en in ('interchain_transfer', 'execute', 'deploy_interchain_token'), 'C05.R6', '%s:%s-mover' % (en, e.method),
+                rep.check(en in ('interchain_transfer', 'execute', 'deploy_interchain_token') or within_entry(g, e, ('interchain_transfer', 'execute', 'deploy_interchain_token')), 'C05.R6', '%s:%s-mover' % (en, e.method),
                           'token movements occur only at the take, the give and the initial-supply mint', esite(g, e), e.describe()[:160])
                 a = [core(x) for x in e.args]
                 if e.method in ('transfer', 'burn') and a and a[0] == ('self',):
